@@ -1514,3 +1514,27 @@ package log
 //@   ensures[C02:no-delimited-prefix-means-root] !has(cTags, tag) && str_last(stem(tag), '_') <= 0 ==> result == cRoot
 //@   ensures[C02:longest-listed-prefix-wins] !has(cTags, tag) && str_last(stem(tag), '_') > 0 && has(cTags, parentWild(tag)) ==> result == cTags[parentWild(tag)]
 //@   ensures[C02:route] result == route(cTags, cRoot, tag)
+
+// ---- C01 / C15: wiring the appender references of a configured logger ------------------------------------
+// NewPlugin hands Refresh a non-nil pointer to one of the registered logger classes; the references of a
+// (sync or async) logger are distinct non-nil objects created by injectElement.
+//@ spec fun plugOf(v reflect.Value) any = reflect.Value.Interface(v)
+//@ spec fun hasRefs(x any) bool = dyn(x, *SyncLogger) || dyn(x, *AsyncLogger)
+//@ spec fun registeredLogger(x any) bool = (hasRefs(x) || dyn(x, *DiscardLogger) || dyn(x, *ConsoleLogger) || dyn(x, *FileLogger) || dyn(x, *RollingFileLogger)) && ifval(x) != 0
+//@ spec fun refsOf(x any) *AppenderRefs = dyn(x, *SyncLogger) ? as(x, *SyncLogger).AppenderRefs : as(x, *AsyncLogger).AppenderRefs
+//@ spec fun refsFresh(c *AppenderRefs) bool = (forall k int :: 0 <= k && k < len(c.AppenderRefs) ==> c.AppenderRefs[k] != nil) && distinctRefs(c)
+
+//@ func Refresh/initAppenderRefs
+//@   requires registeredLogger(plugOf(v)) && cAppenders != nil
+//@   requires hasRefs(plugOf(v)) ==> refsFresh(refsOf(plugOf(v)))
+//@   requires forall n string :: has(cAppenders, n) ==> cAppenders[n] != nil
+//@   let x = plugOf(v)
+//@   modifies elemsof(refsOf(x).AppenderRefs), all(AppenderRef.Level), all(AppenderRef.Appender)
+//@   nopanic[C01,C15]
+//@   ensures[C15:base-or-error] result1 == nil ==> result0 != nil
+//@   ensures[C15:dangling-reference-is-an-error] hasRefs(x) && (exists k int :: 0 <= k && k < len(refsOf(x).AppenderRefs) && !has(cAppenders, old(refsOf(x).AppenderRefs[k]).Ref)) ==> result1 != nil
+//@   ensures[C01,C15:references-resolved] hasRefs(x) && result1 == nil ==> wfRefs(refsOf(x)) && (forall k int :: 0 <= k && k < len(refsOf(x).AppenderRefs) ==> refsOf(x).AppenderRefs[k].Appender == cAppenders[refsOf(x).AppenderRefs[k].Ref])
+//@   ensures[C01:ranges-chained] hasRefs(x) && result1 == nil ==> sortedRefs(refsOf(x))
+//@   loop 1 invariant[C15:scan] 0 <= $k && $k <= len(ref.AppenderRefs) && hasRefs(x) && ref == refsOf(x) && len(ref.AppenderRefs) == old(len(refsOf(x).AppenderRefs))
+//@   loop 1 invariant[C15:refs-kept] refsFresh(ref) && (forall j int :: 0 <= j && j < len(ref.AppenderRefs) ==> ref.AppenderRefs[j] == old(refsOf(x).AppenderRefs[j]))
+//@   loop 1 invariant[C15:resolved-so-far] forall j int :: 0 <= j && j < $k ==> has(cAppenders, ref.AppenderRefs[j].Ref) && ref.AppenderRefs[j].Appender == cAppenders[ref.AppenderRefs[j].Ref]
